@@ -6,7 +6,7 @@ package ast
 
 // ---- C08: every DeepCopy preserves every field (one obligation per field, generated from go/types) ----
 
-//@ fields_copied (*Task).DeepCopy                 [C08]
+//@ fields_copied (*Task).DeepCopy                 [C08,C09,C10,C11]
 //@ fields_copied (*Cmd).DeepCopy                  [C08]
 //@ fields_copied (*Dep).DeepCopy                  [C08]
 //@ fields_copied (*For).DeepCopy                  [C08]
@@ -16,7 +16,7 @@ package ast
 //@ fields_copied (*Requires).DeepCopy             [C08]
 //@ fields_copied (*VarsWithValidation).DeepCopy   [C08]
 //@ fields_copied (*Include).DeepCopy              [C08]
-//@ fields_copied (*Vars).DeepCopy                 [C08]
+//@ fields_copied (*Vars).DeepCopy                 [C08,C09,C10,C11]
 //@   skipfield mutex a copy gets its own, unlocked mutex
 //@ fields_copied (*Matrix).DeepCopy               [C08]
 
